@@ -132,6 +132,13 @@ def run(ctx):
         if not ctx.ob(len(tabs) == 1, '%s property decoder dispatches on the property key byte' % pk, 'propswitch|' + pk, loc=v.loc()):
             continue
         _, tab, other, _ = tabs[0]
+        # (added after the second mutation sweep) a key outside the table is a malformed packet, never skipped
+        ra_u = prims.rets_after(v, [r' not in \('])
+        ctx.ob(ra_u == {'Err'}, '%s property decoder rejects every property key it does not handle (outcomes after the default arm: %s)' % (pk, sorted(ra_u or ['default arm not found'])), 'propdefault|' + pk, loc=v.loc())
+        # ... and the loop runs while property bytes remain
+        lp_ = prims.edge_nodes_matching(v, [r'^\(0 < slice::len\(\w+\)\)$', r'^!slice::is_empty\(\w+\)$', r'^!\(slice::len\(\w+\) == 0\)$'])
+        ok_ = prims.rets_after(v, [r'^\(slice::len\(\w+\) <= 0\)$|^slice::is_empty\(\w+\)$|^\(slice::len\(\w+\) == 0\)$'])
+        ctx.ob(bool(lp_) and ok_ == {'Ok'}, '%s property decoder consumes all property bytes: it returns Ok exactly when none remain (%s)' % (pk, sorted(ok_ or ['loop test not found'])), 'proploop|' + pk, loc=v.loc())
         rows = []
         legal = mqtt5.properties_of(pk)
         for key in sorted(legal):
@@ -448,6 +455,17 @@ def run(ctx):
                 okp = len(lens) == 2 and lens[0] == '(2 <= slice::len(bytes))' and re.match(r'^\(num::from_be_bytes\(.*Index::index\(bytes, RangeTo\{end: 2\}\).* as usize <= slice::len\(Index::index\(bytes, RangeFrom\{start: 2\}\)\)\)$', lens[1]) is not None
                 ctx.ob(okp and ln_.startswith('num::from_be_bytes('), '%s needs the two prefix bytes and exactly the announced number of bytes after them; a field that ends the packet is accepted (%s)' % (n_, [l_[:40] for l_ in lens]), 'prim-bound|' + n_, loc=v_.loc(), rule='R-C03-6')
     ctx.floor(npb, 9, 'fixed-width / length-prefixed decode primitives')
+    # byte-encoded booleans (2.2.2.2 properties 0x01, 0x19, 0x25, 0x28-0x2A; the CONNACK flags): 0 -> false, 1 -> true, anything else malformed
+    dbl = ctx.fn('decode::decode_optional_u8_as_bool')
+    def _norm_idx(g):
+        return re.sub(r'bytes\[_\d+\]', 'bytes[0]', g)
+    wr_b = {}
+    for (i_, j_, s_) in dbl.stmts():
+        if s_['k'] == 'assign' and s_['lhs']['p'] and show(dbl.place_expr(s_['lhs'])) == 'value':
+            wr_b[show(dbl.rvalue_expr(s_['rv'], i_))] = [_norm_idx(g) for g in prims.guard_strs_plain(dbl, i_) if 'bytes[' in g]
+    errs_b = sorted(tuple(_norm_idx(g) for g in prims.guard_strs_plain(dbl, b_) if 'bytes[' in g) for b_, e_ in prims.ret_variants(dbl) if e_[0] == 'agg' and e_[2] == 'Err' and any('bytes[' in g for g in prims.guard_strs_plain(dbl, b_)))
+    ctx.ob(wr_b == {'Option::Some{0: False}': ['(bytes[0] == 0)'], 'Option::Some{0: True}': ['!(bytes[0] == 0)', '(bytes[0] == 1)']} and errs_b == [('!(bytes[0] == 0)', '!(bytes[0] == 1)')],
+           'a byte-encoded boolean decodes 0 to false, 1 to true and rejects every other value (%s; rejects: %s)' % (wr_b, errs_b), 'prim-bool', loc=dbl.loc(), rule='R-C03-6')
 
     # ------------------------------------------------------------ R-C03-5
     ctx.rule('R-C03-5', 'T7 panic inventory', 'no panic-capable construct on the decode path (index, range, unwrap, explicit panic) is reachable without a dominating guard that makes it safe')
